@@ -15,6 +15,57 @@ def trusted(name):
   TRUSTED_USED.add(name)
 
 
+def z3util_vars(term):
+  """Free constants of a z3 term."""
+  seen, out, todo = set(), [], [term]
+  while todo:
+    t = todo.pop()
+    if t.get_id() in seen:
+      continue
+    seen.add(t.get_id())
+    if z3.is_const(t) and t.decl().kind() == z3.Z3_OP_UNINTERPRETED:
+      out.append(t)
+    elif z3.is_quantifier(t):
+      todo.append(t.body())
+    else:
+      todo.extend(t.children())
+  return out
+
+
+def auto_inline_contract(file, name):
+  """An inline pseudo-contract for the top-level function `name` of `file`, if there is one and it
+  is a plain function (no decorators, no generator, no global/nonlocal state, no nested defs)."""
+  from pyvc import loader
+  cid = f'auto-inline:{file}:{name}'
+  if cid in C.REGISTRY:
+    return C.REGISTRY[cid]
+  if file.startswith('@verif/') or C.lookup_method(name):
+    return None
+  try:
+    _, tree = loader.parse_file(file)
+  except Exception:   # pylint: disable=broad-except
+    return None
+  node = next((n for n in tree.body if isinstance(n, ast.FunctionDef) and n.name == name), None)
+  if node is None or node.decorator_list or node.args.vararg or node.args.kwarg:
+    return None
+  for n in ast.walk(node):
+    if isinstance(n, (ast.Yield, ast.YieldFrom, ast.Global, ast.Nonlocal, ast.Await, ast.Lambda)) or (
+        isinstance(n, (ast.FunctionDef, ast.ClassDef)) and n is not node):
+      return None
+  ctr = C.Contract(cid, file, name, kind='inline',
+                   note='helper without a contract, inlined into its callers on every run')
+  # found through its file only: never by bare name from another module
+  C.BY_METHOD[name].remove(ctr)
+  if not C.BY_METHOD[name]:
+    del C.BY_METHOD[name]
+  try:
+    loader.bind_ast(ctr)
+  except Exception:   # pylint: disable=broad-except
+    C.REGISTRY.pop(cid, None)
+    return None
+  return ctr
+
+
 class CallMixin:
 
   # ---------------------------------------------------------------- helpers
@@ -139,6 +190,11 @@ class CallMixin:
         for m in mod:
           new = z3.Store(new, m, fresh('fv_' + f, Val))
       newh = newh.set('f:' + f, new)
+    # ghost state the callee declares it writes is new after the call (its post-conditions say
+    # what it is); without this a clause such as g' == g + 1 would contradict g' == g and
+    # silently prune the path
+    for gname in getattr(ctr, 'ghost_writes', ()):
+      newh = newh.set(gname, fresh('ghost_' + gname.replace(':', '_'), heap_sort(gname)))
     return st.with_heap(newh).assume(*facts)
 
   def apply_contract(self, ctr, argmap, st, node):
@@ -175,14 +231,23 @@ class CallMixin:
         out.append(Res(se, exc=Exc(name, origin=f'{ctr.id}@{line}')))
     for name in ctr.may_raise:
       se = self.havoc_call(st, ctr, mod)
-      ctx_e = C.Ctx(argmap, st.heap, se.heap, env=argmap)
-      ctx_e.caller = ctx_pre.caller
-      if name in ctr.raises_post:
-        se = se.assume(ctr.raises_post[name](ctx_e))
       cls_t = fresh('exc_cls', I)
       ev = fresh('exc_obj', I)
-      se = se.assume(cls_in(cls_t, name), ev >= st.heap.alloc, ev < se.heap.alloc, cls_fn(ev) == cls_t)
-      out.append(Res(se, exc=Exc(cls_t, val=VRef(ev), name=name, origin=f'{ctr.id}@{line}')))
+      exc_obj = Exc(cls_t, val=VRef(ev), name=name, origin=f'{ctr.id}@{line}')
+      ctx_e = C.Ctx(argmap, st.heap, se.heap, env=argmap, exc=exc_obj)
+      ctx_e.caller = ctx_pre.caller
+      describes_exc = False
+      if name in ctr.raises_post:
+        post_e = ctr.raises_post[name](ctx_e)
+        describes_exc = any(str(v) == str(ev) for v in z3util_vars(post_e))
+        se = se.assume(post_e)
+      if describes_exc:
+        # the contract speaks about the exception object itself (it may be one that existed
+        # before the call): only its class is fixed here
+        se = se.assume(cls_in(cls_t, name), ev < se.heap.alloc, cls_fn(ev) == cls_t)
+      else:
+        se = se.assume(cls_in(cls_t, name), ev >= st.heap.alloc, ev < se.heap.alloc, cls_fn(ev) == cls_t)
+      out.append(Res(se, exc=exc_obj))
     sn = st.assume(z3.Not(z3.Or(conds))) if conds else st
     if self.feasible(sn):
       sn = self.havoc_call(sn, ctr, mod)
@@ -274,6 +339,10 @@ class CallMixin:
     # receives the receiver object (same convention as call_with_splat)
     cur = self.ctr_stack[-1] if getattr(self, 'ctr_stack', None) else self.ctr
     src = ast.unparse(e.func)
+    if (isinstance(e.func, ast.Attribute) and e.func.attr == 'with_traceback' and len(e.args) == 1
+        and not e.keywords and src not in cur.calls):
+      trusted('BaseException.with_traceback(tb) returns its receiver; cannot fail for a traceback or None')
+      return self.then(self.ev_list([e.func.value, e.args[0]], st), lambda st2, vals: [Res(st2, vals[0])])
     as_method = (isinstance(e.func, ast.Attribute) and src in cur.calls and
                  (C.REGISTRY[cur.calls[src]].params or [None])[0] == 'self')
     if as_method:
@@ -425,6 +494,13 @@ class CallMixin:
     ctr = self.resolve_contract(short, None, st, node)
     if ctr is not None:
       return self.call_contract(ctr, pos, kw, st, node)
+    # a plain helper function of the same module that has no contract: its real body is inlined
+    # (it becomes part of the caller's verified text and of its source hash)
+    if '.' not in name:
+      cur = self.ctr_stack[-1] if getattr(self, 'ctr_stack', None) else self.ctr
+      ctr = auto_inline_contract(cur.file, name)
+      if ctr is not None:
+        return self.call_contract(ctr, pos, kw, st, node)
     self.unsupp(f'call to `{name}` (no model, no contract)', node)
 
   def isinstance_cond(self, v, t, st, node):
@@ -736,6 +812,12 @@ class CallMixin:
     lit = self.str_literal_of(nm)
     if lit is not None and len(pos) == 2:
       return self.load_attr(obj, lit, st, node)
+    if (lit is not None and len(pos) == 3 and z3.is_expr(obj) and z3.is_expr(pos[2]) and
+        not self.feasible(st, z3.Not(z3.And(is_VRef(obj), z3.Not(cls_in(st.heap.cls(ref(obj)), 'Buildable')))))):
+      # getattr(obj, 'name', default) on an object that is not a Buildable: whether the attribute
+      # exists is not modelled, so the result is either the field or the default (both considered)
+      r = fresh('getattr3', Val)
+      return [Res(st.assume(z3.Or(r == st.heap.fld(ref(obj), lit), r == pos[2])), r)]
     cur = self.ctr_stack[-1] if getattr(self, 'ctr_stack', None) else self.ctr
     if 'getattr' in cur.calls and len(pos) == 2 and all(z3.is_expr(p) for p in pos):
       # attribute lookup with a computed name on an arbitrary object: the contract named by
